@@ -293,7 +293,12 @@ class Frame:
         self.first_param = None
 
 
-NATIVE_OK = (types.FunctionType, types.BuiltinFunctionType, types.ModuleType, type, enum.Enum, _re.Pattern,
+import datetime as _dt
+
+# immutable standard-library values: carried as themselves, their methods are executed natively on concrete arguments
+NATIVE_VALUES = (_dt.datetime, _dt.date, _dt.time, _dt.timedelta, _dt.timezone)
+
+NATIVE_OK = NATIVE_VALUES + (types.FunctionType, types.BuiltinFunctionType, types.ModuleType, type, enum.Enum, _re.Pattern,
              types.MethodDescriptorType, types.WrapperDescriptorType, staticmethod, classmethod, property)
 
 _PURE_NODES = (ast.Name, ast.Constant, ast.Attribute, ast.Subscript, ast.Compare, ast.BoolOp, ast.UnaryOp,
@@ -653,6 +658,13 @@ class Interp:
                 return self.lift(getattr(obj, name))
             except AttributeError:
                 self.raise_(AttributeError, name)
+        if isinstance(obj, NATIVE_VALUES):
+            a = getattr(obj, name, None)
+            if a is None and not hasattr(obj, name):
+                self.raise_(AttributeError, name)
+            if callable(a):
+                return BuiltinMethod(obj, name)
+            return self.lift(a)
         if isinstance(obj, (types.ModuleType, enum.Enum, types.FunctionType, _re.Pattern)):
             if isinstance(obj, _re.Pattern) and name in ('match', 'fullmatch', 'search'):
                 return BuiltinMethod(obj, name)
@@ -757,6 +769,10 @@ class Interp:
             if ctx.shared.havoc_unmodelled:
                 return self.any_op(f'{mod.split(".")[0]}.{fn.__name__}()')
             raise Unsupported(f'call of unmodelled function {mod}.{fn.__qualname__}')
+        if isinstance(fn, type) and issubclass(fn, NATIVE_VALUES) or \
+                isinstance(fn, (types.BuiltinMethodType, types.MethodDescriptorType)) and isinstance(getattr(fn, '__self__', None), type) \
+                and issubclass(fn.__self__, NATIVE_VALUES):
+            return self.models.native_call(self, fn, list(args), kwargs)
         if isinstance(fn, type):
             if ctx.shared.havoc_unmodelled and not ((fn.__module__ or '').startswith('fim') or fn.__module__ == 'builtins'
                                                     or issubclass(fn, BaseException)):
